@@ -1195,11 +1195,15 @@ class Parser:
         """
         EnumValueDefinition : Description? EnumValue Directives[Const]?
 
-        - EnumValue : Name
+        - EnumValue : Name but not "true", "false" or "null"
         """
         start = self.peek()
+        description = self.parse_description()
+        token = self.peek()
+        if token.__class__ is Name and token.value in ("true", "false", "null"):
+            raise _unexpected_token(token, token.start, self._lexer._source)
         return _ast.EnumValueDefinition(
-            description=self.parse_description(),
+            description=description,
             name=self.parse_name(),
             directives=self.parse_directives(True),
             loc=self._loc(start),
